@@ -1,4 +1,5 @@
 import UbxModel.Model.Render
+import UbxModel.Model.Level
 import UbxModel.Model.Server
 import UbxModel.Model.RenderKeys
 import UbxModel.Proofs.CfgKeysDichotomy
@@ -81,10 +82,6 @@ theorem line_has_name (name : String) (k : RKind) (v d : Nat) :
   obtain ⟨s, hs⟩ := render_total k v d
   exact ⟨s, by simp [line, hs, Except.map]⟩
 
-/-- `Fields.__str__` / `UbxFrame.__str__`: the header `NAME cid` and one line per non-reserved field -/
-def frameText (name : String) (cid : Cid) (fields : List (String × RKind × Nat × Nat)) : Except Exc (List String) :=
-  (fields.mapM fun f => line f.1 f.2.1 f.2.2.1 f.2.2.2).map fun ls => (name ++ " cls:" ++ hexText 2 cid.cls ++ " id:" ++ hexText 2 cid.id) :: ls
-
 /-- **str() never raises and names the message and every field** -/
 theorem frame_text_total (name : String) (cid : Cid) (fields : List (String × RKind × Nat × Nat)) :
     ∃ hd ls, frameText name cid fields = .ok (hd :: ls) ∧ name.toList <+: hd.toList ∧ ls.length = fields.length ∧
@@ -109,15 +106,6 @@ theorem frame_text_total (name : String) (cid : Cid) (fields : List (String × R
     by simp [frameText, h1, Except.map], ?_, h2, h3⟩
   simp [String.toList_append, List.append_assoc]
 
-/-- the request layer at DEBUG renders the frame before sending (`_send`); a rendering error would escape -/
-def setAtLevel (debug : Bool) (s : Srv) (env : Env) (lg : Log) (req : Req)
-    (name : String) (fields : List (String × RKind × Nat × Nat)) : Except Exc (Option RFrame × Srv × Log) :=
-  if debug then
-    match frameText name req.cid fields with
-    | .error e => .error e
-    | .ok _ => .ok (s.set env lg req)
-  else .ok (s.set env lg req)
-
 /-- **the log level never changes behaviour**: same result, same transmissions, no exception, for every
     request frame, server state and receiver behaviour -/
 theorem level_irrelevant (s : Srv) (env : Env) (lg : Log) (req : Req) (name : String)
@@ -128,14 +116,6 @@ theorem level_irrelevant (s : Srv) (env : Env) (lg : Log) (req : Req) (name : St
 
 /-- the same for any action guarded by a DEBUG rendering of a frame — `poll()`, `set_mga()`,
     `fire_and_forget()` (`_send` renders the request), `_wait` (renders the frame it received) -/
-def atLevel {α : Type} (debug : Bool) (name : String) (cid : Cid) (fields : List (String × RKind × Nat × Nat))
-    (action : α) : Except Exc α :=
-  if debug then
-    match frameText name cid fields with
-    | .error e => .error e
-    | .ok _ => .ok action
-  else .ok action
-
 theorem level_irrelevant_any {α : Type} (name : String) (cid : Cid) (fields : List (String × RKind × Nat × Nat))
     (action : α) : atLevel true name cid fields action = atLevel false name cid fields action := by
   obtain ⟨hd, ls, h, -⟩ := frame_text_total name cid fields
